@@ -170,6 +170,11 @@ class SymArray:
     def ravel(self, *a, **k):
         return self
 
+    def squeeze(self, *a, **k):
+        if isinstance(self.n, int) and self.n == 1:
+            raise EngineLimit("squeeze of a length-1 array")
+        return self
+
     def flatten(self, *a, **k):
         return self.copy()
 
